@@ -823,6 +823,25 @@ def run(tier, seed, workers):
             st.bounds = {'tcp_server_conns%d_ops%d' % (nconn, len(TCP_OPS)): dict(st.bounds)}
             states += st.states
             total.merge(st)
+        # many connections at once (one long history each, not a search): every connection keeps its own automaton
+        for n in ((24,) if tier == 'quick' else (24, 70, 200)):
+            model = ConnModel(n, OPS + ['scloseall'])
+            for variant in ('peers-close-first', 'server-closes-all'):
+                hist = [('connect', c) for c in range(n)] + [('send5', c) for c in range(n)] + [('swrite', c) for c in range(0, n, 3)]
+                if variant == 'peers-close-first':
+                    hist += [('pclose', c) for c in range(0, n, 2)] + [('sclose', c) for c in range(1, n, 2)]
+                else:
+                    hist += [('pclose', c) for c in range(0, n, 5)] + [('scloseall', 0)]
+                hist = tuple(hist)
+                w = model.build(hist)
+                sst = core.Stats()
+                try:
+                    model.check(hist, w, sst)
+                finally:
+                    model.close(w)
+                sst.counters['many_connection_histories'] += 1
+                sst.samples = []
+                total.merge(sst)
         st = e1_history.bfs(ClientModel(), 4 if tier == 'quick' else 6, workers, seed)
         st.bounds = {'client': dict(st.bounds)}
         states += st.states
